@@ -109,6 +109,30 @@ Theorem c19_repair_values : forall nq nc d sfx k, wf nq nc d = true ->
 Proof. exact repair_values. Qed.
 
 (* ------------------------------------------------------------------------------------------------
+   (1') and (5') on the RETURNED SUBEXPERIMENT itself ([finish]), every workflow: re-used qubits, user resets,
+   any observables, any map choice.  sub_wf: every Reset of the subcircuit acts on one qubit of the circuit and every
+   placeholder acts inside the circuit (no no_reuse hypothesis). *)
+Theorem c19_finish_postconditions : forall gh gsx (env : benv) qc ids ms g idx out,
+  valid env (mdata qc) ids ms -> sub_wf (mnq qc) (mdata qc) = true ->
+  finish gh gsx env qc ids ms g idx = Ok out ->
+  no_leading_reset out /\ no_trailing_reset out /\ no_double_reset out.
+Proof. exact finish_postconditions. Qed.
+
+(* [reference] = the same subexperiment with NO reset removed (register, decomposition, measurement suffix).  Every
+   classical bit of the returned subexperiment carries the Herbrand term it has in the reference - all of them when the
+   group measures something; all but the placeholder bit (bit [mnc qc], the single bit of "observable_measurements")
+   for an identity group.  Composite of c19_values_unaffected (three passes) and c19_repair_values (repair step).
+   What is NOT proved here: that equal terms give equal laws (M1), that the placeholder bit is masked out of every
+   observable (C11, c11_dummy) and that the reconstruction is a function of these bit laws (C06). *)
+Theorem c19_finish_values : forall gh gsx (env : benv) qc ids ms g idx out r ncl,
+  valid env (mdata qc) ids ms ->
+  finish gh gsx env qc ids ms g idx = Ok out -> reference gh gsx env qc ids ms g idx = Ok r ->
+  wf (mnq qc) ncl (mdata r) = true ->
+  forall k, (idx = [] -> k <> mnc qc) ->
+  nth k (hc (denote (mnq qc) ncl out)) None = nth k (hc (denote (mnq qc) ncl (mdata r))) None.
+Proof. exact finish_values. Qed.
+
+(* ------------------------------------------------------------------------------------------------
    non-vacuity.  env = [move basis]; gates: 0 = h (also the suffix's H), 1 = sx, 2 = x, 10 = cx, 11 = ry *)
 Definition exEnv : benv := [move_basis].
 Definition G g qs := mkI (Gate g) qs [].
@@ -127,6 +151,15 @@ Example c19_ex_reuse :
   count_resets exChainOut = 1 /\
   proj_q 0 exChainOut = [G 0 [0]; G 0 [0]; mkI Measure [0] [1]; mkI Reset [0] []; G 2 [0]; G 0 [0]; mkI Measure [0] [0]].
 Proof. repeat split; vm_compute; reflexivity. Qed.
+
+Example c19_ex_reuse_hyps :
+  valid exEnv (mdata exChain) [[1]; [3]] [2; 7]%Z /\ sub_wf 2 (mdata exChain) = true /\
+  (exists r, reference 0 1 exEnv exChain [[1]; [3]] [2; 7]%Z [3; 0] [0] = Ok r /\ wf 2 3 (mdata r) = true /\
+             count_resets (mdata r) = 4).
+Proof.
+  split; [apply validb_sound; vm_compute; reflexivity|]. split; [vm_compute; reflexivity|].
+  eexists. split; [vm_compute; reflexivity|]. split; vm_compute; reflexivity.
+Qed.
 
 (* the F2 witness shape: partition {source segment, other qubit} of  h 0; cx 0 1; CutWire 0; rx 0; ry 1  with observable
    IZ: the group is the identity (idx = []), the source half ends qubit 0 with a Reset, the dummy measurement reads
@@ -147,7 +180,7 @@ Qed.
    /repo does) the trailing Reset is no longer final and survives the three passes *)
 Example c19_ex_f2_unrepaired :
   let d := [G 0 [0]; G 10 [0; 1]; G 0 [0]; mkI Measure [0] [1]; mkI Reset [0] []; G 11 [1]] in
-  decompose exEnv (mdata exF2) 1 [[2]] (Some [2%Z]) = Ok (d, 1) /\
+  decompose exEnv (mdata exF2) 1 [[2]] (Some [Some 2%Z]) = Ok (d, 1) /\
   count_resets (three_passes 2 (d ++ [mkI Measure [0] [0]])) = 1 /\
   count_resets (three_passes 2 (remove_final_resets 2 d ++ [mkI Measure [0] [0]])) = 0.
 Proof. repeat split; vm_compute; reflexivity. Qed.
@@ -183,6 +216,8 @@ Print Assumptions c19_no_reuseb_sound.
 Print Assumptions c19_suffix_avoids_sourcesb_sound.
 Print Assumptions c19_values_unaffected.
 Print Assumptions c19_repair_values.
+Print Assumptions c19_finish_postconditions.
+Print Assumptions c19_finish_values.
 
 (* ------------------------------------------------------------------------------------------------
    (4) circuits produced by cut_wires (Model/CutWires.v, the C03 model) satisfy no_reuse: the Move placeholder of a
@@ -360,13 +395,19 @@ Theorem c19_facts_move_shape :
   (forall env : benv, nth 0 (move_basis :: env) [] = move_basis) /\ basis_class [move_basis] 0 = 1.
 Proof. repeat split; reflexivity. Qed.
 
-(* the order modelled by [pre_pass] / [three_passes]: register, decomposition, (repair) final resets when the group
-   measures nothing, measurement suffix; then zero-state, final, consolidate; the dummy measurement reads qubit 0 *)
+(* what the property needs of the control flow (execution order inside generate_cutting_experiments): register,
+   decomposition, the repair (final resets, only when the group measures nothing), the measurement suffix - and only THEN
+   the three clean-up passes, all three of them; the dummy measurement reads qubit 0.
+   The ORDER of the three passes among themselves and the place of the clean-up loop (inside or after the group loop, as
+   long as it follows the suffix) are deliberately NOT pinned: by c19_wire_normal_form each pass acts on a wire as
+   drop-leading / trim-trailing / squash-runs on ANY input (early exits included), these commute, and each pass keeps the
+   first reset of a surviving run, so every order returns the same instruction list (argued; a different order that did
+   change the output would be caught by the correspondence, which compares instruction lists exactly). *)
 Theorem c19_facts_order :
-  c19_inner_loop_calls = ["_append_measurement_register"; "decompose_qpd_instructions";
-                          "if-not-pauli_indices:_remove_final_resets"; "_append_measurement_circuit";
-                          "subexperiments_dict[label].append"] /\
-  reset_pipeline_order = ["_remove_resets_in_zero_state"; "_remove_final_resets"; "_consolidate_resets"] /\
+  c19_stage_order = ["_append_measurement_register"; "decompose_qpd_instructions";
+                     "if-not-pauli_indices:_remove_final_resets"; "_append_measurement_circuit";
+                     "pass"; "pass"; "pass"] /\
+  c19_pass_names = ["_consolidate_resets"; "_remove_final_resets"; "_remove_resets_in_zero_state"] /\
   c19_dummy_index = 0 /\ pauli_indices_or_dummy [] = [c19_dummy_index].
 Proof. repeat split; reflexivity. Qed.
 
